@@ -167,6 +167,7 @@ type Result struct {
 	ParseErr error // driven subroutine failed to parse
 	Steps    int
 	Mon      *Monitor
+	State    string // the state returned by the driven subroutine
 }
 
 // RunSub runs the first subroutine declared in subVCL in the given scope against mainVCL.
@@ -209,7 +210,10 @@ func RunSub(mainVCL, subVCL, scope string, names []string, req Request, opts ...
 	if !ok {
 		sc = context.RecvScope
 	}
-	res.Err = i.ProcessTestSubroutine(sc, sub)
+	// what Interpreter.ProcessTestSubroutine does, keeping the returned state
+	i.SetScope(sc)
+	st, err := i.ProcessSubroutine(sub, interpreter.DebugPass, nil)
+	res.Err, res.State = err, string(st)
 	res.Snaps, res.Logs, res.Steps = m.Snaps, m.Logs, m.Steps
 	return res
 }
